@@ -25,4 +25,10 @@ theorem register_broadcasts : Zc.Gen.registerBroadcasts = 3 := by decide
 theorem not_started_of_done (e s : Bool) : started true e s = false := by simp [started]
 theorem wait_raises_of_done : wait_for_start_raises true = true := by simp [wait_for_start_raises]
 
+/-- `async_close` does not wait for start-up on a done instance -/
+theorem close_no_wait_of_done : close_waits_for_start true = false := by simp [close_waits_for_start]
+/-- after the wait, `async_wait_for_start` raises iff the event is no longer set or the instance is done -/
+theorem wait_raises_after_iff (s d : Bool) : wait_for_start_raises_after s d = true ↔ (s = false ∨ d = true) := by
+  simp [wait_for_start_raises_after]
+
 end Zc.GenFacts.Shutdown
